@@ -1,12 +1,50 @@
 import PhysisModel.Base.Proto
 import PhysisModel.Base.ParserA
 import PhysisModel.Driver.C18Util
+import PhysisModel.Model.C18Dat
 namespace Physis.Driver.C18Arc
 open Physis Physis.Proto Physis.A Physis.Driver.C18
+
+/-- Raw-deflate oracle for streams made of *stored* blocks (what the generator writes): `true` iff
+`inflate` reaches `Z_STREAM_END` within `outLen` bytes of output.  For any other block type, and for
+the corner `outLen = 0`, the oracle does not know and answers `unknown`. -/
+def inflStoredGo (unknown : Bool) : Nat → Bytes → Nat → Bool
+  | 0, _, _ => unknown
+  | fuel + 1, data, outRem =>
+    match data with
+    | [] => false
+    | b :: rest =>
+      if (b.toNat / 2) % 4 ≠ 0 then unknown
+      else match rest with
+        | l0 :: l1 :: n0 :: n1 :: body =>
+          let len := l0.toNat + 256 * l1.toNat
+          let nlen := n0.toNat + 256 * n1.toNat
+          if len + nlen ≠ 65535 then false
+          else if (body.take len).length ≠ len then false
+          else if outRem < len then false
+          else if b.toNat % 2 = 1 then true
+          else inflStoredGo unknown fuel (body.drop len) (outRem - len)
+        | _ => false
+
+def inflStored (unknown : Bool) (comp : Bytes) (outLen : Nat) : Bool :=
+  if outLen = 0 then unknown else inflStoredGo unknown (comp.length + 1) comp outLen
+
+/-- `dat <hex> <offset>`: the class when both readings of the unknown inflate results agree,
+otherwise "any outcome that is not a crash" -/
+def dat (h off : String) : String :=
+  match Bytes.ofHexFast h, off.toNat? with
+  | some w, some o =>
+    if o > 18446744073709551615 then bad else
+    let r1 := (C18Dat.readFromOffset (inflStored true) w o).cls
+    let r2 := (C18Dat.readFromOffset (inflStored false) w o).cls
+    if r1 == r2 then answer ("dat " ++ h ++ " " ++ off ++ " cls") r1
+    else answer ("dat " ++ h ++ " " ++ off ++ " any") "ok"
+  | _, _ => bad
 
 /-- `none` = not a case of this part -/
 def handle? (f : List String) : Option String :=
   match f with
+  | ["dat", h, off] => some (dat h off)
   | _ => none
 
 end Physis.Driver.C18Arc
